@@ -24,7 +24,7 @@ DEEP_POOL = [{"hosts": 2}, {"extend": 0, "paths": 2}, {"extend": 1, "paths": 1},
 def levels(tier):
     if tier == "quick":
         return [
-            {"name": "codec", "mode": "codec", "digits": [1, 2, 3, 6], "prefix_indices": [0, 3, 12]},
+            {"name": "codec", "mode": "codec", "digits": [1, 2, 3, 6], "prefix_indices": [0, 3, 10, 12, 64]},
             {"name": "path", "mode": "path", "moves": [1, 5, 16, 31, 32, 33, 40]},
             {"name": "tpl-n1", "mode": "pages", "n": 1, "prelude": TPL, "alphabet": ["we", "addprefix", "page"], "defaults": ["never"],
              "pool": POOL5, "ks": [1, 2, 3, 6], "insert": False},
